@@ -1374,12 +1374,26 @@ def i_get_closure(it, args, kw):
     return _closure_env(args[0], args[1]).vars[args[1]]
 
 
+def i_inner_function(it, args, kw):
+    """The nested function of a real function, from the current tree's AST, as an interpreted closure-free function."""
+    import ast as _ast
+    from . import front
+    from .interp import Env
+    outer, name = args[0], args[1]
+    node, _ = front.func_ast(outer)
+    for n in _ast.walk(node):
+        if isinstance(n, (_ast.FunctionDef, _ast.AsyncFunctionDef)) and n is not node and n.name == name:
+            env = Env(None, outer.__globals__, defcls=None, fname=outer.__qualname__)
+            return it.make_sfunc(n, env, name)
+    raise LookupError(f"{outer.__qualname__} defines no function {name}")
+
+
 def i_new_object(it, args, kw):
     return SObj(args[0], dict(kw))
 
 
 INTRINSICS = {
-    "new_object": i_new_object, "sym_text": i_sym_text, "sym_idset": i_sym_idset,
+    "new_object": i_new_object, "inner_function": i_inner_function, "inner_name": (lambda it, args, kw: f"{args[0].__module__}:{args[0].__qualname__}.<locals>.{args[1]}"), "sym_text": i_sym_text, "sym_idset": i_sym_idset,
     "real": i_real, "run_coro": i_run_coro, "set_closure": i_set_closure, "get_closure": i_get_closure, "set_global": i_set_global, "get_global": i_get_global, "id_mapping": (lambda it, args, kw: args[0]),
     "ghost": (lambda it, args, kw: it.ex.ghosts.setdefault(args[0], [])),
     "is_concrete": (lambda it, args, kw: not is_symbolic(args[0])),
